@@ -79,7 +79,7 @@ def sampled_stand_in_step(unit, rows_of, n_per_row=20000, far_n=40):
 
     def step(rep, cov):
         rows = sorted(rows_of())
-        info = dict(kind='sampled (NOT proved; the full-domain proofs of these rows run in the thorough tier)', rows=len(rows),
+        info = dict(kind='sampled (NOT proved): rows whose full-domain proof runs in the thorough tier only, and the executed-only `__sweep` rows (jump distances; their unbounded statement is proved by the Verus unit)', rows=len(rows),
                     samples_per_row=n_per_row, seed=common.seed(), held=0, refused=0, violated=[])
         cov['sampled_stand_in'] = info
         if not rows:
@@ -121,16 +121,19 @@ def run(prop, unit, tier, assumptions, samples, not_decided, slow=(), extra_unit
     slow_set = set(slow) | slow_rows(os.path.join(common.VERIF, u['rows']))
 
     def row_filter(unit_name, t):
-        if t == 'thorough' or unit_name != unit:
+        if unit_name != unit:
             return None
         rows = kx.row_names(os.path.join(common.VERIF, u['rows']))
-        return set(r for r in rows if r not in slow_set and not (quick_skip and quick_skip(r)))
+        if t == 'thorough':
+            # `__sweep` rows are executed only (symbolic filler counts are out of CBMC's reach; the unbounded statement is the Verus unit's)
+            return set(r for r in rows if not r.endswith('_sweep'))
+        return set(r for r in rows if r not in slow_set and not r.endswith('_sweep') and not (quick_skip and quick_skip(r)))
     steps = [extra_steps] if extra_steps else []
-    if tier != 'thorough':
-        def skipped_rows():
-            rows = kx.row_names(os.path.join(common.VERIF, u['rows']))
-            return [r for r in rows if r not in row_filter(unit, tier)]
-        steps.append(sampled_stand_in_step(unit, skipped_rows))
+
+    def skipped_rows():
+        rows = kx.row_names(os.path.join(common.VERIF, u['rows']))
+        return [r for r in rows if r not in row_filter(unit, tier)]
+    steps.append(sampled_stand_in_step(unit, skipped_rows))
 
     def all_steps(rep, cov):
         return sum((st(rep, cov) or 0) for st in steps)
